@@ -76,6 +76,48 @@ func c15hammerGrowObserver(r *rand.Rand, cs c15case, res *core.CaseResult) {
 				}
 			}
 		}()
+		// tail readers: positional reads that start shortly before what the reader believes to be the end and ask for more
+		// than is there. They get what exists at that moment: bytes the appender wrote ('+', the initial "start", or the zero
+		// fill of a write that has grown the file and not yet stored its bytes), never a panic (the length that is
+		// announced and the contents that exist belong together)
+		for t := 0; t < 2; t++ {
+			wg.Add(1)
+			go func(t int) {
+				defer wg.Done()
+				h, err := m.Open("log")
+				if err != nil {
+					return
+				}
+				defer func() { _ = h.Close() }()
+				buf := make([]byte, 4096)
+				known := int64(0)
+				for atomic.LoadInt32(&stop) == 0 {
+					off := known - 16 - int64(t)*700
+					if off < 0 {
+						off = 0
+					}
+					var n int
+					var rerr error
+					if p := core.Recover(func() { n, rerr = hackpadfs.ReadAtFile(h, buf, off) }); p != "" {
+						first.CompareAndSwap(nil, fmt.Sprintf("tail-read-panic: a ReadAt of 4096 bytes at offset %d of a file that is being appended to panicked: %s", off, p))
+						return
+					}
+					if rerr != nil && rerr != io.EOF {
+						continue
+					}
+					for j := 0; j < n; j++ {
+						// (a zero byte is the known gap between a write's growing the file and its storing the bytes: F69's class)
+						if c := buf[j]; c != '+' && c != 0 && !(off+int64(j) < 5 && c == "start"[off+int64(j)]) {
+							first.CompareAndSwap(nil, fmt.Sprintf("tail-read-foreign-byte: a ReadAt at offset %d returned byte %q at file offset %d; the file holds \"start\" followed by '+' only", off, c, off+int64(j)))
+							return
+						}
+					}
+					if off+int64(n) > known {
+						known = off + int64(n)
+					}
+				}
+			}(t)
+		}
 		for o := 0; o < observers; o++ {
 			wg.Add(1)
 			go func(o int) {
@@ -125,7 +167,11 @@ func c15hammerGrowObserver(r *rand.Rand, cs c15case, res *core.CaseResult) {
 	if n := atomic.LoadInt64(&backwards); n > 0 {
 		res.Violate("C15|hammer-grow|size-went-backwards", fmt.Sprintf("a file that is only ever appended to was seen shrinking in %d of %d looks: %v", n, atomic.LoadInt64(&looks), first.Load()), wit)
 	} else if v := first.Load(); v != nil {
-		res.Violate("C15|hammer-grow|appender-failed", v.(string), wit)
+		what := "appender-failed"
+		if s := v.(string); strings.HasPrefix(s, "tail-read-") {
+			what = s[:strings.Index(s, ":")]
+		}
+		res.Violate("C15|hammer-grow|"+what, v.(string), wit)
 	}
 	res.Nontrivial = true
 	res.Count("hammer_grow_programs", 1)
@@ -423,6 +469,7 @@ func c15hammerShrinkVsReaders(r *rand.Rand, cs c15case, res *core.CaseResult) {
 		mu.Unlock()
 	}
 	var ops int64
+	var twoShrinkersNow int32
 	body := func() {
 		for round := 0; round < rounds; round++ {
 			name := fmt.Sprintf("f%d", round)
@@ -432,6 +479,11 @@ func c15hammerShrinkVsReaders(r *rand.Rand, cs c15case, res *core.CaseResult) {
 			}
 			var stop int32
 			var wg sync.WaitGroup
+			twoShrinkers := round%3 == 2
+			atomic.StoreInt32(&twoShrinkersNow, 0)
+			if twoShrinkers {
+				atomic.StoreInt32(&twoShrinkersNow, 1)
+			}
 			started := make(chan struct{}, readers)
 			for k := 0; k < readers; k++ {
 				wg.Add(1)
@@ -457,6 +509,9 @@ func c15hammerShrinkVsReaders(r *rand.Rand, cs c15case, res *core.CaseResult) {
 							continue // (a read overlapping the shrink failing outright is the recorded finding F69)
 						}
 						for j := 0; j < n && bytes.Count(buf[:n], []byte{'x'}) != n; j++ {
+							if buf[j] == 0 && atomic.LoadInt32(&twoShrinkersNow) == 1 {
+								continue // (two shrinkers: quarter-then-half legitimately extends with zeros)
+							}
 							if buf[j] != 'x' {
 								report("foreign-bytes", fmt.Sprintf("a ReadAt on a %d-byte file of 'x' that another handle truncates to 0 returned n=%d with byte %q at offset %d: contents the file never had", size, n, buf[j], j))
 								return
@@ -468,12 +523,46 @@ func c15hammerShrinkVsReaders(r *rand.Rand, cs c15case, res *core.CaseResult) {
 			for k := 0; k < readers; k++ {
 				<-started
 			}
-			if h, err := hackpadfs.OpenFile(m, name, os.O_RDWR, 0); err == nil {
-				_ = hackpadfs.TruncateFile(h, 0)
-				_ = h.Close()
+			// two handles shrink the file at the same moment, to a half and to a quarter (every third round: one, to nothing):
+			// whichever order the two take effect in, a quarter is what remains
+			targets := []int64{int64(size / 2), int64(size / 4)}
+			if round%3 != 2 {
+				targets = []int64{0}
 			}
+			twoShrinkers = len(targets) == 2
+			var twg sync.WaitGroup
+			var goFlag int32
+			for _, tgt := range targets {
+				twg.Add(1)
+				go func(tgt int64) {
+					defer twg.Done()
+					h, err := hackpadfs.OpenFile(m, name, os.O_RDWR, 0)
+					if err != nil {
+						return
+					}
+					for atomic.LoadInt32(&goFlag) == 0 {
+					}
+					_ = hackpadfs.TruncateFile(h, tgt)
+					_ = h.Close()
+				}(tgt)
+			}
+			atomic.StoreInt32(&goFlag, 1)
+			twg.Wait()
 			atomic.StoreInt32(&stop, 1)
 			wg.Wait()
+			if after, err := hackpadfs.ReadFile(m, name); err == nil {
+				// half-then-quarter leaves a quarter; quarter-then-half leaves a half whose second quarter is the zero fill of
+				// the extension (Truncate extends, like os): the bytes that were cut off never come back
+				q := int(targets[len(targets)-1])
+				ok := len(after) == q
+				if len(targets) == 2 && len(after) == int(targets[0]) {
+					ok = bytes.Count(after[q:], []byte{0}) == len(after)-q
+				}
+				if !ok {
+					report("shrunk-to-a-state-no-order-gives", fmt.Sprintf("a %d-byte file of 'x' was truncated to %v by handles of its own at the same moment; it now has %d bytes, %d of them 'x' (orders: %d bytes of 'x', or %d bytes whose tail from %d on is zero fill)", size, targets, len(after), bytes.Count(after, []byte{'x'}), q, targets[0], q))
+					return
+				}
+			}
 			_ = hackpadfs.Remove(m, name)
 		}
 	}
